@@ -39,6 +39,9 @@ func (p *Program) ShapeOfFunc(fn *ssa.Function) string {
 	args := make([]string, n)
 	for i := range args {
 		args[i] = fmt.Sprintf("⟨v:$%d⟩", i)
+		if b, ok := fn.Params[i].Type().Underlying().(*types.Basic); ok && b.Info()&types.IsString != 0 {
+			args[i] = fmt.Sprintf("⟨s:$%d⟩", i) // a string spliced in by concatenation is the same text as through %s
+		}
 	}
 	return p.shapeCall(fn, args, 0)
 }
@@ -94,6 +97,11 @@ func (p *Program) shapeExpr(e *Expr, args []string, depth int) string {
 			var i int
 			if _, err := fmt.Sscanf(e.Name, "$%d", &i); err == nil && i < len(args) {
 				return args[i]
+			}
+		}
+		if e.Val != nil {
+			if b, ok := e.Val.Type().Underlying().(*types.Basic); ok && b.Info()&types.IsString != 0 {
+				return "⟨s:" + e.Name + "⟩"
 			}
 		}
 		return "⟨v:" + e.Name + "⟩"
@@ -217,7 +225,7 @@ func (p *Program) shapeExpr(e *Expr, args []string, depth int) string {
 
 // singleHole: s is exactly one ⟨v:…⟩ hole; returns its content.
 func singleHole(s string) (string, bool) {
-	if !strings.HasPrefix(s, "⟨v:") {
+	if !strings.HasPrefix(s, "⟨v:") && !strings.HasPrefix(s, "⟨s:") {
 		return "", false
 	}
 	depth := 0
